@@ -13,7 +13,9 @@
   encoding/json's `typeFields` (JSV/Spec/EncJsonEmb.lean).
 -/
 import JSV.Proofs.InfTight
+import JSV.Proofs.InfNamed
 import JSV.Proofs.InfEmbTight
+import JSV.Proofs.InfEmbNamed
 import JSV.Props.C04
 import JSV.Props.C16
 namespace JSV.C09
@@ -166,6 +168,114 @@ theorem wrong_array_length_rejected (opts : IOpts) (fuel : Nat) (len : Nat) (e :
   exact hlen (Models.arrayLen (re := re) hm (valid_iff_isSome.2 hv))
 
 
+/-! ## declared (named) types
+
+  `EncJson.InDomainN`: `InDomain` with declared types; `EncJson.NamedOk opts [] [] T`: the declared types of `T` are
+  transparent for `forType` (none has an entry in the type table, no name occurs twice along a path; C09's domain has no
+  marshaler types, hence the empty list); the strict decoder treats a declared type like its underlying type
+  (`C04.encJson_named_conservative`).  Helper lemmas: JSV/Proofs/InfNamed.lean (`forType_erase`). -/
+
+theorem strEntries_nil (schemas : List (String × NodeId)) (st : Store) : StrEntries schemas [] st :=
+  fun _ hn => nomatch hn
+
+/-- **main, with declared types**: a document that the schema returned by `ForType` accepts is one the decoder accepts
+    for the type -/
+theorem infer_tight_named (opts : IOpts) (fuel : Nat) (T : GoType) (st : Store) (id : NodeId) (st' : Store)
+    (re : String → String → Bool) (hdom : InDomainN T = true) (hok : NamedOk opts [] [] T = true)
+    (h : forType opts fuel T st = .ok (some id, st')) (j : Json) (hp : PlainInts j = true)
+    (fuel' : Nat) (hv : Spec.valid (specEnvNoRefs st' re) fuel' id j = some true) :
+    decodable T j = true := by
+  rw [forType_erase opts [] fuel T st (strEntries_nil _ _) hok] at h
+  rw [← decodable_erase]
+  exact infer_tight opts fuel (erase T) st id st' re (by rw [← inDomainN_eq_erase]; exact hdom) h j hp fuel' hv
+
+/-- contrapositive: what does not decode is not accepted -/
+theorem not_decodable_rejected_named (opts : IOpts) (fuel : Nat) (T : GoType) (st : Store) (id : NodeId) (st' : Store)
+    (re : String → String → Bool) (hdom : InDomainN T = true) (hok : NamedOk opts [] [] T = true)
+    (h : forType opts fuel T st = .ok (some id, st')) (j : Json) (hp : PlainInts j = true)
+    (hnd : decodable T j = false) (fuel' : Nat) :
+    Spec.valid (specEnvNoRefs st' re) fuel' id j ≠ some true := by
+  intro hv
+  rw [infer_tight_named opts fuel T st id st' re hdom hok h j hp fuel' hv] at hnd
+  cases hnd
+
+/-- (1) a missing always-written field of a declared struct type `type N struct {…}` is rejected -/
+theorem missing_required_rejected_named (opts : IOpts) (fuel : Nat) (nm : String)
+    (fields : List (String × String × GoType)) (st : Store) (id : NodeId) (st' : Store) (re : String → String → Bool)
+    (hdom : InDomainN (.named nm (.struct fields)) = true) (hok : NamedOk opts [] [] (.named nm (.struct fields)) = true)
+    (h : forType opts fuel (.named nm (.struct fields)) st = .ok (some id, st'))
+    (kvs : List (String × Json)) (k : String) (hk : k ∈ alwaysNames fields) (hmiss : Json.lookup k kvs = none)
+    (fuel' : Nat) :
+    Spec.valid (specEnvNoRefs st' re) fuel' id (.obj kvs) ≠ some true := by
+  rw [forType_erase opts [] fuel _ st (strEntries_nil _ _) hok] at h
+  rw [inDomainN_eq_erase] at hdom
+  simp only [erase] at h hdom
+  exact missing_required_rejected opts fuel (eraseFields fields) st id st' re hdom h kvs k
+    (by rw [alwaysNames_erase]; exact hk) hmiss fuel'
+
+/-- (2) an undeclared property is rejected: a key that is no field's JSON name, exactly or case-insensitively -/
+theorem undeclared_property_rejected_named (opts : IOpts) (fuel : Nat) (nm : String)
+    (fields : List (String × String × GoType)) (st : Store) (id : NodeId) (st' : Store) (re : String → String → Bool)
+    (hdom : InDomainN (.named nm (.struct fields)) = true) (hok : NamedOk opts [] [] (.named nm (.struct fields)) = true)
+    (h : forType opts fuel (.named nm (.struct fields)) st = .ok (some id, st'))
+    (kvs : List (String × Json)) (hp : PlainInts (.obj kvs) = true) (k : String) (v : Json) (hkv : (k, v) ∈ kvs)
+    (hexact : decodableExact fields k v = none) (hfold : decodableFold fields k v = none) (fuel' : Nat) :
+    Spec.valid (specEnvNoRefs st' re) fuel' id (.obj kvs) ≠ some true := by
+  rw [forType_erase opts [] fuel _ st (strEntries_nil _ _) hok] at h
+  rw [inDomainN_eq_erase] at hdom
+  simp only [erase] at h hdom
+  exact undeclared_property_rejected opts fuel (eraseFields fields) st id st' re hdom h kvs hp k v hkv
+    (by rw [decodableExact_erase]; exact hexact) (by rw [decodableFold_erase]; exact hfold) fuel'
+
+/-- (3) a wrong JSON type is rejected, for declared slice, struct and scalar types -/
+theorem wrong_type_rejected_named (opts : IOpts) (fuel : Nat) (T : GoType) (st : Store) (id : NodeId) (st' : Store)
+    (re : String → String → Bool) (hdom : InDomainN T = true) (hok : NamedOk opts [] [] T = true)
+    (h : forType opts fuel T st = .ok (some id, st')) (fuel' : Nat) :
+    (∀ nm e b, T = .named nm (.slice e) → Spec.valid (specEnvNoRefs st' re) fuel' id (.bool b) ≠ some true) ∧
+    (∀ nm e s, T = .named nm (.slice e) → Spec.valid (specEnvNoRefs st' re) fuel' id (.str s) ≠ some true) ∧
+    (∀ nm fs xs, T = .named nm (.struct fs) → PlainInts (.arr xs) = true →
+      Spec.valid (specEnvNoRefs st' re) fuel' id (.arr xs) ≠ some true) ∧
+    (∀ nm fs s, T = .named nm (.struct fs) → Spec.valid (specEnvNoRefs st' re) fuel' id (.str s) ≠ some true) ∧
+    (∀ nm s, T = .named nm (.basic "Bool") → Spec.valid (specEnvNoRefs st' re) fuel' id (.str s) ≠ some true) ∧
+    (∀ nm b, T = .named nm (.basic "String") → Spec.valid (specEnvNoRefs st' re) fuel' id (.bool b) ≠ some true) := by
+  refine ⟨?_, ?_, ?_, ?_, ?_, ?_⟩
+  · rintro nm e b rfl
+    exact not_decodable_rejected_named opts fuel _ st id st' re hdom hok h _ rfl (by simp [decodable]) fuel'
+  · rintro nm e s rfl
+    exact not_decodable_rejected_named opts fuel _ st id st' re hdom hok h _ rfl (by simp [decodable]) fuel'
+  · rintro nm fs xs rfl hp
+    exact not_decodable_rejected_named opts fuel _ st id st' re hdom hok h _ hp (by simp [decodable]) fuel'
+  · rintro nm fs s rfl
+    exact not_decodable_rejected_named opts fuel _ st id st' re hdom hok h _ rfl (by simp [decodable]) fuel'
+  · rintro nm s rfl
+    exact not_decodable_rejected_named opts fuel _ st id st' re hdom hok h _ rfl (by simp [decodable, decodableBasic]) fuel'
+  · rintro nm b rfl
+    exact not_decodable_rejected_named opts fuel _ st id st' re hdom hok h _ rfl (by simp [decodable, decodableBasic]) fuel'
+
+/-- (4) an integer outside the range of the kind of a declared integer type (`type Level int8`) is rejected -/
+theorem out_of_range_rejected_named (opts : IOpts) (fuel : Nat) (nm kind : String) (lo hi : Int) (st : Store) (id : NodeId)
+    (st' : Store) (re : String → String → Bool) (hdom : InDomainN (.named nm (.basic kind)) = true)
+    (hok : NamedOk opts [] [] (.named nm (.basic kind)) = true)
+    (hr : intRange kind = some (lo, hi)) (h : forType opts fuel (.named nm (.basic kind)) st = .ok (some id, st'))
+    (i : Int) (hi64 : -9223372036854775808 ≤ i ∧ i ≤ 9223372036854775807) (hout : i < lo ∨ hi < i) (fuel' : Nat) :
+    Spec.valid (specEnvNoRefs st' re) fuel' id (.num (i : Rat)) ≠ some true := by
+  rw [forType_erase opts [] fuel _ st (strEntries_nil _ _) hok] at h
+  rw [inDomainN_eq_erase] at hdom
+  simp only [erase] at h hdom
+  exact out_of_range_rejected opts fuel kind lo hi st id st' re hdom hr h i hi64 hout fuel'
+
+/-- (5) a declared array type `type V [n]T` only accepts arrays of length `n` -/
+theorem wrong_array_length_rejected_named (opts : IOpts) (fuel : Nat) (nm : String) (len : Nat) (e : GoType) (st : Store)
+    (id : NodeId) (st' : Store) (re : String → String → Bool) (hdom : InDomainN (.named nm (.array len e)) = true)
+    (hok : NamedOk opts [] [] (.named nm (.array len e)) = true)
+    (h : forType opts fuel (.named nm (.array len e)) st = .ok (some id, st')) (xs : List Json) (hlen : xs.length ≠ len)
+    (fuel' : Nat) :
+    Spec.valid (specEnvNoRefs st' re) fuel' id (.arr xs) ≠ some true := by
+  rw [forType_erase opts [] fuel _ st (strEntries_nil _ _) hok] at h
+  rw [inDomainN_eq_erase] at hdom
+  simp only [erase] at h hdom
+  exact wrong_array_length_rejected opts fuel len (erase e) st id st' re hdom h xs hlen fuel'
+
 /-! ## labelled tests: the statements evaluated on concrete data -/
 
 /-- `[2]bool`: length 1 and 3 rejected, length 2 accepted, `null` rejected (no pointer) -/
@@ -190,6 +300,37 @@ example : decodable (.map "String" (.ptr (.basic "Uint8"))) (.obj [("a", .num 25
 example : decodable (.map "String" (.ptr (.basic "Uint8"))) (.obj [("a", .num 256)]) = false := by decide
 example : PlainInts (.obj [("a", .num 255), ("b", .null)]) = true := by decide
 
+/-! ### declared types: the hypotheses are satisfiable, the statements discriminate -/
+
+/-- `type Level int8`, `type IDs []Level` -/
+def idsT : GoType := .named "IDs" (.slice (.named "Level" (.basic "Int8")))
+
+example : InDomainN idsT = true ∧ NamedOk {} [] [] idsT = true := by decide
+
+/-- `[127]` and `null` accepted, `[128]` and `"x"` rejected -/
+example : (match forType {} 3 idsT #[] with
+    | .ok (some id, st') =>
+      [Spec.valid (specEnvNoRefs st') 2 id (.arr [.num 127]), Spec.valid (specEnvNoRefs st') 2 id (.arr [.num 128]),
+       Spec.valid (specEnvNoRefs st') 2 id .null, Spec.valid (specEnvNoRefs st') 2 id (.str "x")]
+    | _ => []) = [some true, some false, some true, some false] := by decide
+
+/-- … which is what the decoder says -/
+example : [decodable idsT (.arr [.num 127]), decodable idsT (.arr [.num 128]), decodable idsT .null,
+    decodable idsT (.str "x")] = [true, false, true, false] := by decide
+
+/-- `infer_tight_named` / `not_decodable_rejected_named` applied -/
+example (id : NodeId) (st' : Store) (h : forType {} 3 idsT #[] = .ok (some id, st')) :
+    (Spec.valid (specEnvNoRefs st') 2 id (.arr [.num 127]) = some true → decodable idsT (.arr [.num 127]) = true) ∧
+    Spec.valid (specEnvNoRefs st') 2 id (.arr [.num 128]) ≠ some true :=
+  ⟨infer_tight_named {} 3 idsT #[] id st' (fun _ _ => false) (by decide) (by decide) h _ (by decide) 2,
+   not_decodable_rejected_named {} 3 idsT #[] id st' (fun _ _ => false) (by decide) (by decide) h _ (by decide) (by decide) 2⟩
+
+/-- `type Level int8` itself: 128 is out of range (`out_of_range_rejected_named`) -/
+example (id : NodeId) (st' : Store) (h : forType {} 2 (.named "Level" (.basic "Int8")) #[] = .ok (some id, st')) :
+    Spec.valid (specEnvNoRefs st') 1 id (.num ((128 : Int) : Rat)) ≠ some true :=
+  out_of_range_rejected_named {} 2 "Level" "Int8" (-128) 127 #[] id st' (fun _ _ => false) (by decide) (by decide) rfl h 128
+    (by decide) (Or.inr (by decide)) 1
+
 /-! ## embedded struct fields (`forTypeE`; the strict decoder: `EncJsonEmb.decodableE`) -/
 
 open EncJsonEmb in
@@ -205,7 +346,8 @@ open EncJsonEmb in
     decoder knows nothing of them).
 
     Partial, what is missing: types outside `InDomainE`: D14 (a JSON name shared by two Go names), D16 (tagged /
-    non-struct / unexported embedded fields), named types in non-embedded positions (as in `infer_tight`). -/
+    non-struct / unexported embedded fields); declared types in non-embedded positions are in
+    `infer_tightE_named_partial`. -/
 theorem infer_tightE_partial (opts : IOpts) (fuel : Nat) (T : GoTypeE) (st : Store) (id : NodeId) (st' : Store)
     (re : String → String → Bool) (hno : EmbNotInTable opts T) (hdom : InDomainE T = true)
     (h : forTypeE opts fuel T st = .ok (some id, st')) (j : Json) (hp : PlainInts j = true)
@@ -224,6 +366,34 @@ theorem not_decodable_rejectedE_partial (opts : IOpts) (fuel : Nat) (T : GoTypeE
     Spec.valid (specEnvNoRefs st' re) fuel' id j ≠ some true := by
   intro hv
   rw [infer_tightE_partial opts fuel T st id st' re hno hdom h j hp fuel' hv] at hnd
+  cases hnd
+
+open EncJsonEmb in
+/-- **main, with embedded fields and declared types (partial)**: as `infer_tightE_partial`, with declared types in
+    NON-embedded positions anywhere in `T` (`InDomainEN`: the type with these replaced by their underlying types is in
+    `InDomainE`; `NamedOkE opts [] T`: none has an entry in the type table, no name twice along a path; see
+    `C04.infer_soundE_named_partial`); the strict decoder treats a declared type like its underlying type.
+    Partial in the same sense as `infer_tightE_partial`. -/
+theorem infer_tightE_named_partial (opts : IOpts) (fuel : Nat) (T : GoTypeE) (st : Store) (id : NodeId) (st' : Store)
+    (re : String → String → Bool) (hno : EmbNotInTable opts T) (hdom : InDomainEN T = true)
+    (hok : NamedOkE opts [] T = true)
+    (h : forTypeE opts fuel T st = .ok (some id, st')) (j : Json) (hp : PlainInts j = true)
+    (fuel' : Nat) (hv : Spec.valid (specEnvNoRefs st' re) fuel' id j = some true) :
+    decodableE T j = true := by
+  rw [forTypeE_erase opts fuel T st hok] at h
+  rw [← decodableE_erase]
+  exact infer_tightE_partial opts fuel (eraseE T) st id st' re (embNotInTable_erase opts T hno) hdom h j hp fuel' hv
+
+open EncJsonEmb in
+/-- contrapositive: what does not decode is not accepted (same domain, partial in the same sense) -/
+theorem not_decodable_rejectedE_named_partial (opts : IOpts) (fuel : Nat) (T : GoTypeE) (st : Store) (id : NodeId)
+    (st' : Store) (re : String → String → Bool) (hno : EmbNotInTable opts T) (hdom : InDomainEN T = true)
+    (hok : NamedOkE opts [] T = true)
+    (h : forTypeE opts fuel T st = .ok (some id, st')) (j : Json) (hp : PlainInts j = true)
+    (hnd : decodableE T j = false) (fuel' : Nat) :
+    Spec.valid (specEnvNoRefs st' re) fuel' id j ≠ some true := by
+  intro hv
+  rw [infer_tightE_named_partial opts fuel T st id st' re hno hdom hok h j hp fuel' hv] at hnd
   cases hnd
 
 open EncJsonEmb in
@@ -362,5 +532,17 @@ example : ∃ id st', forTypeE {} 3 (C04.embedValT tI tX tY tA) #[] = .ok (some 
     fun fuel' => (embedVal_missing_promoted_rejected tI tX tY tA hI hX hY hA id st' h fuel').1⟩
 
 end WitnessesE
+
+/-- `infer_tightE_named_partial` applied to `C04.embedNamedT` (`struct{ Inner; A Celsius }`, `Inner{ X Count; Y string }`):
+    the document `{"x":1,"a":20}`, accepted by the schema (`C04.infer_soundE_named_partial`), decodes -/
+example (tI tX tY tA : String) (hI : tagLookup "json" tI = none)
+    (hX : fieldJSONInfo "X" tX = { name := "x" }) (hY : fieldJSONInfo "Y" tY = { name := "y", omitempty := true })
+    (hA : fieldJSONInfo "A" tA = { name := "a" }) (id : NodeId) (st' : Store)
+    (h : forTypeE {} 4 (C04.embedNamedT tI tX tY tA) #[] = .ok (some id, st'))
+    (hv : Spec.valid (specEnvNoRefs st') 5 id (.obj [("x", .num 1), ("a", .num 20)]) = some true) :
+    EncJsonEmb.decodableE (C04.embedNamedT tI tX tY tA) (.obj [("x", .num 1), ("a", .num 20)]) = true :=
+  infer_tightE_named_partial {} 4 _ #[] id st' (fun _ _ => false)
+    ((Go.embNotInTable_of_empty (opts := {}) (fun _ => rfl) _).1 _ (Nat.le_refl _))
+    (C04.embedNamed_inDomain tI tX tY tA hI hX hY hA) (C04.embedNamed_namedOk tI tX tY tA) h _ (by decide) 5 hv
 
 end JSV.C09
